@@ -598,12 +598,12 @@ theorem hkLinksGo_cons (classic : Bool) (now : Nat) (l : FLink F) (rest : List (
     cases hk1 : l.needsKeepalive now
     · simp only [Bool.false_eq_true, if_false]
       cases hk2 : l.needsRttMeasurement now
-      · simp only [Bool.false_eq_true, if_false]; rfl
-      · simp only [if_true]; rfl
+      · simp only [Bool.false_eq_true, if_false]
+      · simp only [if_true]
     · simp only [if_true]
       cases hk2 : (l.keepalivePacket now).1.needsRttMeasurement now
-      · simp only [Bool.false_eq_true, if_false]; rfl
-      · simp only [if_true]; rfl
+      · simp only [Bool.false_eq_true, if_false]
+      · simp only [if_true]
   · cases hsa : l.shouldAttemptReconnect now
     · simp only [if_true, Bool.false_eq_true, if_false, Bool.true_and, Bool.false_and, List.nil_append]
     · simp only [if_true, Bool.true_and]
